@@ -22,6 +22,7 @@ FORMATS = [
     ("toml_legacy", "pycalver.toml", "[pycalver]", "[pycalver.file_patterns]", "toml"),
 ]
 SELF = "<SELF>"
+NESTED = "<NESTED_SELF>"     # another file with the config file's BASE NAME in a sub-directory (a monorepo's packages/x/pyproject.toml): it is NOT the config file
 STRIP = "'\" "
 
 SCHEMES = [("MAJOR.MINOR.PATCH", "1.2.3"), ("vYYYY0M.BUILD[-TAG]", "v202001.1001-beta"), ("{pycalver}", "v202001.1001-beta"),
@@ -35,7 +36,7 @@ MSG_FRAGS = ["bump", "version", " ", "  ", "#", ";", "=", "%", "%(x)s", "{new_ve
 PROJECT_FILES = ["README.md", "setup.py", "src/pkg/__init__.py", "src/pkg/mod.py", "docs/conf.py", "Änderungen.txt", "a b.txt", "UPPER.TXT",
                  "VERSION", "Dockerfile", "Makefile"]          # (identifier-like names without a dot: INI option names are case-SENSITIVE file names)
 FILE_KEYS = ["README.md", "setup.py", "src/pkg/__init__.py", "docs/conf.py", "Änderungen.txt", "a b.txt", "UPPER.TXT", "missing.txt", "VERSION", "Dockerfile", "Makefile",
-             "src/pkg/*.py", "*.md", "docs/*.nothing", "**/conf.py", "src/*/mod.py", SELF]
+             "src/pkg/*.py", "*.md", "docs/*.nothing", "**/conf.py", "src/*/mod.py", SELF, NESTED]
 PATTERNS_V2 = ["{version}", "{pep440_version}", '__version__ = "{version}"', "version: {version}", "Copyright (c) YYYY", "release = '{version}'",
                "v=MAJOR.MINOR", "badge?message={version}&color=blue ; x # y", '"{version}"', "100% {version}", "{version} = {pep440_version}",
                "download/{version}/pkg-{pep440_version}.tar.gz", "x: y = {version}"]
@@ -126,7 +127,7 @@ def gen_abs(rng, stream="main"):
 
 def for_file(c, fname):
     c2 = dict(c)
-    c2["files"] = [dict(f, name=fname if f["name"] == SELF else f["name"]) for f in c["files"]]
+    c2["files"] = [dict(f, name=fname if f["name"] == SELF else "sub/" + fname if f["name"] == NESTED else f["name"]) for f in c["files"]]
     return c2
 
 
@@ -271,6 +272,8 @@ def intended(c, fname):
 def make_project(p):
     for f in PROJECT_FILES:
         p.write_text(f, "version 1.2.3\n")
+    for f in sorted({x[1] for x in FORMATS}):
+        p.write_text("sub/" + f, "# a sub-project's file of the same name\nversion 1.2.3\n")
     for h in ("hook.sh", "scripts/post hook.sh"):
         p.write_text(h, "#!/bin/sh\nexit 0\n")
         os.chmod(p.path(h), 0o755)
@@ -435,8 +438,9 @@ def KNOWN_OPEN():
 def _norm_eff(eff, fname):
     """effective settings without the config file's own entry (its text differs by syntax); other entries as a set of pairs"""
     e = {k: v for k, v in eff.items() if k not in ("file_patterns", "regexps")}
-    e["pairs"] = sorted({(f, q) for f, ps in eff["file_patterns"] for q in ps if f != fname})
-    e["regexps"] = sorted({(f, q) for f, ps in eff["regexps"] for q in ps if f != fname})
+    nest = lambda f: NESTED if f == "sub/" + fname else f
+    e["pairs"] = sorted({(nest(f), q) for f, ps in eff["file_patterns"] for q in ps if f != fname})
+    e["regexps"] = sorted({(nest(f), q) for f, ps in eff["regexps"] for q in ps if f != fname})
     return e
 
 
